@@ -213,3 +213,38 @@ def oracle_geometry(R, tier, seed):
         if bad: _fail(O, "C04:Geometry(%s):half-vs-full" % "+".join(sorted(dv)), desc, errors=bad)
         else: O["ok"] += 1
         R.mark("c04g", it)
+
+
+def oracle_inertial_loads(R, tier, seed):
+    """the distributed inertial loads of a half model and of the mirrored full model, component by component: the loads on
+    the modelled half agree (a half model carries half of the fuel INCLUDING the reserve, half of the structure)"""
+    from openaerostruct.structures.fuel_loads import FuelLoads
+    from openaerostruct.structures.wing_weight_loads import StructureWeightLoads
+    O = R.oracle("FuelLoads+StructureWeightLoads.half-vs-full")
+    rng = gen.stable_rng(seed, "c04loads")
+    for it in range(3 if tier == "quick" else 10):
+        ny = int(rng.choice([3, 4, 5]))
+        m = gen.rand_mesh(rng, 2, ny, "left", offset=False); full = mirror_full(m)
+        reserve = float(rng.choice([15000.0, 0.0, 4000.0])) if it else 15000.0
+        sh = gen.wingbox_surface(m, symmetry=True, Wf_reserve=reserve); sf = gen.wingbox_surface(full, symmetry=False, Wf_reserve=reserve)
+        nodes_h = 0.6 * m[0] + 0.4 * m[-1]; nodes_f = 0.6 * full[0] + 0.4 * full[-1]
+        vols = rng.uniform(0.2, 2.0, ny - 1); vols_f = np.concatenate([vols, vols[::-1]])
+        em = rng.uniform(20, 400, ny - 1); em_f = np.concatenate([em, em[::-1]])
+        lf = float(rng.choice([1.0, 2.5])); fuel = float(rng.uniform(2e4, 8e4))
+        bad = {}
+        oh, _, _ = core.run_comp(FuelLoads(surface=sh), {"fuel_vols": vols, "nodes": nodes_h, "fuel_mass": fuel, "load_factor": lf}, want_J=False)
+        of, _, _ = core.run_comp(FuelLoads(surface=sf), {"fuel_vols": vols_f, "nodes": nodes_f, "fuel_mass": fuel, "load_factor": lf}, want_J=False)
+        a, b = oh["fuel_weight_loads"], of["fuel_weight_loads"][:ny]
+        # the root node of the full model also receives the share of the first element of the other half
+        if _rel(a[:-1], b[:-1]) > 1e-10: bad["fuel_weight_loads"] = _rel(a[:-1], b[:-1])
+        tot_h, tot_f = a[:, 2].sum(), of["fuel_weight_loads"][:, 2].sum()
+        if abs(2 * tot_h - tot_f) > 1e-9 * abs(tot_f): bad["total-fuel-weight(2 x half vs full)"] = [float(2 * tot_h), float(tot_f), -(fuel + reserve) * 9.80665 * lf]
+        oh, _, _ = core.run_comp(StructureWeightLoads(surface=sh), {"element_mass": em, "nodes": nodes_h, "load_factor": lf}, want_J=False)
+        of, _, _ = core.run_comp(StructureWeightLoads(surface=sf), {"element_mass": em_f, "nodes": nodes_f, "load_factor": lf}, want_J=False)
+        a, b = oh["struct_weight_loads"], of["struct_weight_loads"][:ny]
+        if _rel(a[:-1], b[:-1]) > 1e-10: bad["struct_weight_loads"] = _rel(a[:-1], b[:-1])
+        O["cases"] += 1
+        desc = {"ny": ny, "Wf_reserve": reserve, "fuel_mass": fuel, "load_factor": lf, "seed": seed, "it": it}
+        if bad: _fail(O, "C04:%s-half-vs-full" % sorted(bad)[0], desc, errors=bad, mesh=m.tolist())
+        else: O["ok"] += 1
+        R.mark("c04loads", it)
